@@ -36,6 +36,13 @@ def dumps_variant(fast_json, v, how):
             fp = io.StringIO()
             fast_json.dump(v, fp)
             return {"text": fp.getvalue()}
+        if how.startswith("file@"):
+            enc = how.split("@", 1)[1]
+            raw = io.BytesIO()
+            fp = io.TextIOWrapper(raw, encoding=enc, newline="")
+            fast_json.dump(v, fp)
+            fp.flush()
+            return {"hex": raw.getvalue().hex(), "enc": enc}
         if how == "file-indent2":
             fp = io.StringIO()
             fast_json.dump(v, fp, indent=2)
@@ -50,6 +57,10 @@ def loads_variant(fast_json, json_h, text, how):
     import io
 
     try:
+        if how.startswith("file@"):  # `text` is the hex of a file written by dump() in that encoding
+            enc = how.split("@", 1)[1]
+            r = fast_json.load(io.TextIOWrapper(io.BytesIO(bytes.fromhex(text)), encoding=enc, newline=""))
+            return {"v": json_h.of_py(r)}
         if how == "str":
             r = fast_json.loads(text)
         elif how == "bytes":
@@ -137,7 +148,49 @@ def mutate_deep(x, depth=0):
             x.pop(0)
 
 
-def reuse_check(fast_json, v):
+def repair_check(fast_json, v, deep=False):
+    """an encode that fails half-way (a set leaf, a real cycle), the SAME objects repaired in place, encoded again: must
+    succeed and give the text a fresh equal value gives - through every dumps form; `deep`: below a chain longer than
+    orjson's encoder accepts, so that the orjson configuration takes its stdlib fall-back"""
+    import copy
+
+    out = {}
+
+    def wrap(x):
+        if deep:
+            for i in range(300):
+                x = [x] if i % 2 else {"k": x}
+        return x
+
+    for name, kw in (("plain", {}), ("indent", {"indent": 2}), ("seps", {"separators": (",", ":")}), ("sort", {"sort_keys": True})):
+        try:
+            inner = {"keep": copy.deepcopy(v), "bad": {1, 2}, "list": [1, [2, {"leaf": object()}]]}
+            w = wrap({"outer": [inner, "x"]})
+            for _ in range(2):  # the same failure twice
+                try:
+                    fast_json.dumps(w, **kw)
+                    out[name] = "encoded a set"
+                except Exception:  # noqa: BLE001
+                    pass
+            inner["bad"] = [1, 2]
+            inner["list"][1][1]["leaf"] = None
+            good = wrap({"outer": [{"keep": copy.deepcopy(v), "bad": [1, 2], "list": [1, [2, {"leaf": None}]]}, "x"]})
+            out.setdefault(name, fast_json.dumps(w, **kw) == fast_json.dumps(good, **kw))
+            cyc = {"a": [1]}
+            cyc["a"].append(cyc)
+            try:
+                fast_json.dumps(wrap(cyc), **kw)
+            except Exception:  # noqa: BLE001
+                pass
+            cyc["a"][1] = {"fixed": True}
+            if fast_json.loads(fast_json.dumps(wrap(cyc), **kw)) != wrap({"a": [1, {"fixed": True}]}):
+                out[name] = False
+        except Exception as ex:  # noqa: BLE001
+            out[name] = "raises " + type(ex).__name__
+    return out
+
+
+def reuse_check(fast_json, v, index=0):
     """the same object encoded again after the caller changed it, the same text decoded twice with the
     first result changed in between: each call must stand on its own"""
     import copy
@@ -181,6 +234,8 @@ def reuse_check(fast_json, v):
                 out["dumps_sees_mutation"] = False
         t = fast_json.dumps(v)
         out["dumps_repeatable"] = fast_json.dumps(v) == t
+        if index % 8 == 0 and len(t) < 20000:
+            out["repair"] = repair_check(fast_json, v, deep=(index % 40 == 0))
         # a pretty print, failing encodes and failing decodes (the same failure 1..4 times) in between
         fast_json.dumps(v, indent=2)
         for k in range(1, 5):
@@ -343,7 +398,7 @@ def main():
                 with maybe_debug(i, req.get("debug_every")):
                     ans["out"].append(loads_variant(fast_json, json_h, it["t"], it.get("how", "str")))
         elif op == "reuse":
-            ans = {"out": [reuse_check(fast_json, json_h.to_py(t)) for t in req["values"]]}
+            ans = {"out": [reuse_check(fast_json, json_h.to_py(t), i) for i, t in enumerate(req["values"])]}
         elif op == "bigtwins":
             ans = {"out": [bigtwins(fast_json, sp) for sp in req["specs"]]}
         elif op == "churn":
